@@ -388,6 +388,24 @@ func runC12(r *core.Run) {
 				}
 			}
 		}
+		// whites with a pattern in their components (all three equal - illuminant E given as XYZ -, two
+		// equal, exact small integers and halves) against ordinary ones, both ways: a shortcut keyed on
+		// such a pattern shows only here
+		{
+			special := [][3]float32{{1, 1, 1}, {0.5, 0.5, 0.5}, {2, 2, 2}, {100, 100, 100}, {1, 1, 0.5}, {0.5, 1, 1}, {1, 0.5, 1}, {0.9, 1, 0.9}, {1, 1, 1.0000001}, {0.25, 0.5, 0.75}, {3, 2, 1}}
+			ordinary := [][3]float32{{0.9642, 1, 0.8251}, {0.95047, 1, 1.08883}, {1.09850, 1, 0.35585}, {0.8, 0.9, 0.4}}
+			for _, sp := range special {
+				for _, o := range append(append([][3]float32{}, ordinary...), special...) {
+					for _, pr := range [][2][3]float32{{sp, o}, {o, sp}} {
+						n++
+						nt++
+						if kind, msg := c12PairXYZ(pr[0], pr[1]); kind != "" {
+							r.Violate("pairxyz", kind+"/patterned", msg, c12Case{Kind: kind, XYZ: [][3]float32{pr[0], pr[1]}})
+						}
+					}
+				}
+			}
+		}
 		// the library's own tabulated whites against the xyY-derived ones
 		for _, pr := range [][2]ciexyz.Color{{ciexyz.D65, ciexyz.ColorFromXYY(ciexyy.D65)}, {ciexyz.D50, ciexyz.ColorFromXYY(ciexyy.D50)}, {ciexyz.D50, ciexyz.D65}, {ciexyz.D65, ciexyz.D50}} {
 			a3, b3 := [3]float32{pr[0].X, pr[0].Y, pr[0].Z}, [3]float32{pr[1].X, pr[1].Y, pr[1].Z}
